@@ -280,6 +280,9 @@ func runC17(ctx *h.Ctx) int {
 		if k.R.IntN(3) == 0 {
 			modes = append(modes, "omit-default-flags") // -optimize and -lm are on unless switched off
 		}
+		if k.R.IntN(4) == 0 {
+			modes = append(modes, "repeated-cc")
+		}
 		if !useStdin && k.R.IntN(4) == 0 {
 			modes = append(modes, "odd-input-path")
 			o.Path = cliOddInputPath
